@@ -16,7 +16,10 @@
 //	    error class, right error family), afterwards isomorphic trees;
 //	    systems: harness configuration (default volume, added volume,
 //	    non-initial tree) and the default configuration of the emulated OS
-//	    ("+sys") with the default locations as operands;
+//	    ("+sys") with the default locations as operands; every path-taking
+//	    call also with its operands in the other spellings the Windows type
+//	    accepts (`C:/a/b`, `\a\b`, `/a/b`), from the volume root and from
+//	    below it;
 //	(D) Glob/WalkDir/ReadDir over every operand of <= n elements (literal and
 //	    wildcard elements, absolute and relative) on a fixed deeper tree,
 //	    Linux-typed against Windows-typed (patterns.go).
@@ -31,6 +34,7 @@ import (
 	"sort"
 	"strconv"
 	"strings"
+	"sync"
 	"time"
 
 	"github.com/avfs/avfs"
@@ -188,32 +192,73 @@ func main() {
 	agg := map[string]*inst{}
 
 	if consOK && harnessErr == "" {
-		for _, sn := range strings.Split(*systems, ",") {
-			probe := pairFactory(*tier)(sn)
-			cfg := bfs.Config{
-				System: sn, MaxDepth: d, Deadline: deadline,
-				Report: func(system string, hist []string, op string, v bfs.Viol) {
-					sig := kf.Sig(v.Sig)
-					if sig["fs"] == "" {
-						sig["fs"] = system // worker-crash
-						sig["part"] = "pair"
-					}
+		// the systems are independent explorations: a few run side by side (the
+		// first level of each is a single task), results are merged under a lock
+		// and reported in the order of the list; the replay kept per signature is
+		// the smallest history, whatever the scheduling
+		names := strings.Split(*systems, ",")
+		stats := make([]bfs.Stats, len(names))
+		nops := make([]int, len(names))
+		order := map[string]int{} // equal histories: the system listed first
 
-					k := sig.String()
+		for i, sn := range names {
+			order[sn] = i
+		}
 
-					in, ok := agg[k]
-					if !ok {
-						in = &inst{sig: sig, hist: hist, op: op, system: system, detail: v.Detail}
-						agg[k] = in
-					} else if lessHist(hist, op, in.hist, in.op) {
-						in.hist, in.op, in.detail = hist, op, v.Detail
-					}
+		var (
+			mu  sync.Mutex
+			wg  sync.WaitGroup
+			sem = make(chan struct{}, 4)
+		)
 
-					in.count++
-				},
-			}
+		for i, sn := range names {
+			wg.Add(1)
 
-			st := bfs.Run(cfg, probe.OpString)
+			go func() {
+				defer wg.Done()
+
+				sem <- struct{}{}
+
+				defer func() { <-sem }()
+
+				probe := pairFactory(*tier)(sn)
+				nops[i] = probe.NumOps()
+
+				cfg := bfs.Config{
+					System: sn, MaxDepth: d, Deadline: deadline,
+					Report: func(system string, hist []string, op string, v bfs.Viol) {
+						sig := kf.Sig(v.Sig)
+						if sig["fs"] == "" {
+							sig["fs"] = system // worker-crash
+							sig["part"] = "pair"
+						}
+
+						k := sig.String()
+
+						mu.Lock()
+						defer mu.Unlock()
+
+						in, ok := agg[k]
+						if !ok {
+							in = &inst{sig: sig, hist: hist, op: op, system: system, detail: v.Detail}
+							agg[k] = in
+						} else if lessHist(hist, op, in.hist, in.op) ||
+							(!lessHist(in.hist, in.op, hist, op) && order[system] < order[in.system]) {
+							in.hist, in.op, in.system, in.detail = hist, op, system, v.Detail
+						}
+
+						in.count++
+					},
+				}
+
+				stats[i] = bfs.Run(cfg, probe.OpString)
+			}()
+		}
+
+		wg.Wait()
+
+		for i, sn := range names {
+			st := stats[i]
 			all = append(all, st)
 
 			if st.HarnessErr != "" {
@@ -221,7 +266,7 @@ func main() {
 			}
 
 			fmt.Printf("C17 pair %s: ops=%d states=%d transitions=%d depth_completed=%d exhaustive=%v\n",
-				sn, probe.NumOps(), st.States, st.Transitions, st.DepthDone, st.Exhaustive)
+				sn, nops[i], st.States, st.Transitions, st.DepthDone, st.Exhaustive)
 		}
 	}
 
@@ -248,6 +293,7 @@ func main() {
 			"part": "pair", "fs": in.system, "history": in.hist, "op": in.op, "detail": det,
 			"how": "fresh Linux-typed and Windows-typed " + in.system + " (SystemDirs: /tmp resp. C:\\tmp; +sys: the constructor's own system directories and, MemFS, a MemIdm of the same OS type; umask 022, Chdir to the root); " +
 				"apply the history then op on both, paths built with each instance's own Join under its root ($TMP = vfs.TempDir(), $HOME = avfs.HomeDir(vfs, \"\"), $HOMEUSER = avfs.HomeDirUser(vfs, \"\", vfs.User())); " +
+				"an operand written f:P, r:P or rf:P is, on the Windows-typed instance only, P's path with '/' for '\\' (f), without its volume (r: rooted on the volume of the current directory) or both (rf); windows_call in the detail shows the string given; " +
 				"re-execute: ./check " + *id + " " + *tier + " -replay <this file>",
 		}
 
@@ -318,17 +364,17 @@ func main() {
 			"states": states, "transitions": trans, "traces_validated_against_impl": trans,
 			"evaluations": trans + vst.ChecksWindows + vst.ChecksLinux + sst.Checked + pst.Calls, "distinct_nontrivial": len(outcomes),
 			"outcome_classes": outcomes,
-			"rule": "(C) every history of length <= bound over the portable call alphabet (namespace calls, Glob and WalkDir with the wildcard / the root at every depth from the volume root down; systems +sys: also the calls on the default locations $TMP, $HOME, $HOMEUSER and CreateTemp/MkdirTemp with dir \"\") executed in lock-step on a fresh Linux-typed and a fresh Windows-typed real instance, oracle on every transition; " +
+			"rule": "(C) every history of length <= bound over the portable call alphabet (namespace calls, Glob and WalkDir with the wildcard / the root at every depth from the volume root down; every path-taking call, Chdir included, also with its operands in each other spelling of the Windows type: forward slashes, volume left out, both - on the Windows-typed side only; systems +sys: also the calls on the default locations $TMP, $HOME, $HOMEUSER and CreateTemp/MkdirTemp with dir \"\") executed in lock-step on a fresh Linux-typed and a fresh Windows-typed real instance, oracle on every transition; " +
 				"(D) every operand of <= bound elements over the element alphabet, absolute and relative, given to Glob (all), WalkDir and ReadDir (operands without wildcard) on both instances holding the same fixed tree, from each current directory, results compared in portable spelling; " +
 				"(B) every sequence of length <= bound over the volume alphabet executed on a fresh real MemFS of each OS type against the set model; " +
 				"(A) fixed list of facts and failing calls; the default configurations (constructor's system directories x default / same-type identity manager): each default location is an existing directory on both types or on neither, CreateTemp/MkdirTemp with dir \"\" agree; " +
 				"states/transitions count part (C) only; evaluations = oracle evaluations of (A)+(B)+(C)+(D); " +
-				"distinct_nontrivial = distinct (call, Linux-typed outcome kind) classes observed in (C) and (D) (listed in outcome_classes, those of (D) prefixed patterns:; those of (B) are in volumes.outcome_classes)",
+				"distinct_nontrivial = distinct (call, Linux-typed outcome kind) classes observed in (C) and (D) (listed in outcome_classes, those of (D) prefixed patterns:; a call with spelled operands is a class of its own per spelling and per current directory at / below the volume root: Mkdir[rf cwd=below-root]/ok; those of (B) are in volumes.outcome_classes)",
 			"samples":    samples,
 			"exhaustive": exh,
-			"bound": fmt.Sprintf("pair histories of length <= %d (completed %d) over names {a,b} depth <= 2 (+sys systems: plus $TMP, $TMP/a, $HOME, $HOMEUSER); volume sequences of length <= %d over %d calls; "+
+			"bound": fmt.Sprintf("pair histories of length <= %d (completed %d) over names {a,b} depth <= 2 (+sys systems: plus $TMP, $TMP/a, $HOME, $HOMEUSER), operands spelled as Join gives them and, Windows-typed side, in the spellings {f: C:/a/b, r: \\a\\b, rf: /a/b} (%s); volume sequences of length <= %d over %d calls; "+
 				"pattern operands of <= %d elements over %d elements {%s}, absolute and relative, %d current directories, %d systems, one fixed tree of depth %d",
-				d, depthDone, vl, vst.AlphabetSize, pst.MaxElems, len(pst.Elements), strings.Join(pst.Elements, " "), len(pst.Cwds), len(pst.Systems), pst.MaxElems),
+				d, depthDone, spelledBound(*tier), vl, vst.AlphabetSize, pst.MaxElems, len(pst.Elements), strings.Join(pst.Elements, " "), len(pst.Cwds), len(pst.Systems), pst.MaxElems),
 			"systems": all, "static": sst, "volumes": vst, "patterns": pst,
 			"static_facts_checked": sst.Checked, "volume_sequences_enumerated": vst.Sequences,
 			"known_findings_matched": rep.KnownMatched(), "skipped": skipped,
@@ -346,6 +392,7 @@ func main() {
 			"default locations are spelled by role and resolved on each instance by the library's helpers for its current user ($TMP = vfs.TempDir(), $HOME = avfs.HomeDir(vfs, \"\"), $HOMEUSER = avfs.HomeDirUser(vfs, \"\", vfs.User()), MemFS only); the tree created by the constructor is compared as one line per role plus everything below $TMP; system entries without counterpart on the other type (C:\\Windows, the Default user's directories, the intermediate AppData\\Local) are not compared, nor is the content of $HOME and $HOMEUSER (on the Windows type the temporary directory lives below them); no Chdir into, no symbolic link inside and no removal of $HOME/$HOMEUSER (their depth below the root and their nesting differ by documentation)",
 			"Glob patterns hold no '\\\\' (escape on the Linux type, separator on the Windows type) and are built like paths (each instance's Join under its root); the order of the matches is compared; part (D) runs in the harness configuration on the default volume (MemFS, OrefaFS) and on an added volume D: (MemFS)",
 			"link targets are relative only (an absolute path of one OS is not a portable operand); symbolic-link calls only on MemFS (OrefaFS does not advertise FeatSymlink)",
+			"spellings: on the Windows type '\\' and '/' are both separators and a path that starts with a separator is rooted on the volume of the current directory, so C:\\a\\b, C:/a/b, \\a\\b and /a/b name the same entry while the current directory is on C: (always the case here: each instance of part (C) lives on one volume, C: or the added D:); a spelled call is judged like the unspelled one (same success/failure as the Linux-typed twin, which is given /a/b, isomorphic trees, same current directory). Not spelled: the target of Symlink (content, not an operand), drive-relative paths (C:a), lower-case drive letters, UNC and \\\\?\\ forms, mixed separators inside one path",
 			"drive-letter case of volume names is undocumented: the observed behaviour is recorded (coverage.volumes.drive_letter_case_observed) and only its consistency is checked",
 		},
 		Violations: rep.NewCount(),
@@ -363,6 +410,15 @@ func main() {
 	}
 
 	os.Exit(code)
+}
+
+// spelledBound describes the operands the spelling dimension covers in a tier.
+func spelledBound(tier string) string {
+	if tier == "thorough" {
+		return "every absolute operand, pattern and walk root of the alphabet, the relative ones holding a separator, $TMP and $TMP/a; two-path calls with both operands or either one spelled"
+	}
+
+	return "operands /, /a, /b, /a/b, patterns /* /a* /*/* /a/* /*/a */* a/*, walk roots / /a; two-path calls with both operands in the same spelling; Symlink targets a and /a"
 }
 
 // doReplay re-executes a replay file of part (C).
